@@ -203,7 +203,10 @@ func fuzzStage(p *props.Prop, self, work, tier string, seed int64, m *props.Merg
 	}
 	dir := filepath.Join(work, "fuzz")
 	os.MkdirAll(dir, 0o755)
-	cache := filepath.Join(outDir(), "work", "fuzzcache", p.ID)
+	cache := filepath.Join(outDir(), "work", "fuzzcache", p.ID+"-"+tier)
+	if tier != "thorough" {
+		os.RemoveAll(cache) // the quick tier always starts from the committed seeds, so that its cost does not drift
+	}
 	os.MkdirAll(cache, 0o755)
 	outp := filepath.Join(dir, "fuzz.out")
 	of, _ := os.Create(outp)
@@ -216,7 +219,10 @@ func fuzzStage(p *props.Prop, self, work, tier string, seed int64, m *props.Merg
 	cmd.Dir = dir
 	cmd.Stdout = of
 	cmd.Stderr = of
-	cmd.Env = append(os.Environ(), "VERIF_FUZZ_PROP="+p.ID, "VERIF_FUZZ_OUT="+dir, "VERIF_REPO="+repoDir())
+	cmd.Env = append(os.Environ(), "VERIF_FUZZ_PROP="+p.ID, "VERIF_FUZZ_OUT="+dir, "VERIF_REPO="+repoDir(), "VERIF_SEED="+fmt.Sprint(seed))
+	if tier != "thorough" {
+		cmd.Env = append(cmd.Env, "VERIF_FUZZ_SEEDS=500")
+	}
 	_ = cmd.Run()
 	of.Close()
 	ob, _ := os.ReadFile(outp)
